@@ -273,7 +273,12 @@ pub fn run_check(spec: &PropSpec, tier: &str, verif_seed: u64, verif_dir: &str) 
     println!("property={} tier={} VERIF_SEED={} worlds={}", spec.id, tier, verif_seed, total);
     let weights: Vec<u32> = spec.families.iter().map(|f| f.weight).collect();
     let wsum: u32 = weights.iter().sum();
+    // development aid: explore a single family (never set by the registered commands)
+    let only_family: Option<usize> = std::env::var("VERIF_FAMILY").ok().and_then(|n| spec.families.iter().position(|f| f.name == n));
     let fam_of = |i: u64| -> usize {
+        if let Some(k) = only_family {
+            return k;
+        }
         let mut x = (mix(&[i, 0xFA7]) % wsum as u64) as u32;
         for (k, w) in weights.iter().enumerate() {
             if x < *w {
